@@ -4,9 +4,9 @@ import json, subprocess
 hooks_commits = ["39dace2", "8ee40f6"]
 P = {
  "C01": ("model-based stateful property testing (proptest histories vs reference map; peek/pop extreme validity + clone-drain after every step)",
-         "Generated histories (16 workers) over the full PriorityQueue alphabet with ties, extremes and targeted arrangements; after every step peek must be a model maximum, every pop/pop_if/peek_mut must address the peeked element, and a clone is drained by pop against the sorted model. Exploration: no absence claim beyond the sizes (<=200 quick, <=2000 thorough) and lengths explored.", "3 C01"),
+         "Generated histories (16 workers, checked and release builds) over the full PriorityQueue alphabet with ties, extremes and targeted arrangements, a large-queue variant (50-1300 elements), a sweep over every queue size up to 600 and light-weight scripts on 4 095-131 073 elements; after every step peek must be a model maximum, every pop/pop_if/peek_mut must address the peeked element, and a clone is drained by pop against the sorted model; a raw heap-order anomaly is turned into a behavioural witness by a battery of continuations. Exploration: no absence claim beyond the cases generated.", "3 C01"),
  "C02": ("model-based stateful property testing (proptest histories on the min-max heap; both-end extreme validity + three drain patterns)",
-         "As C01 on DoublePriorityQueue: peek_min/peek_max validity after every step, pops address the peeked element, and three drains (all-min, all-max, generated interleaving) of a clone are compared with the model's extremes.", "3 C02"),
+         "As C01 on DoublePriorityQueue (same size sweep, large-queue variant and huge-queue scripts up to 131 073 elements): peek_min/peek_max validity after every step, pops address the peeked element, and three drains (all-min, all-max, generated interleaving) of a clone are compared with the model's extremes.", "3 C02"),
  "C03": ("model-based stateful property testing (exact return values and full content observation against a map model)",
          "Every return value of push/change_priority/_by/remove/pop*/get* is compared exactly with a BTreeMap model, and len/is_empty/iter/get/get_priority are observed for the whole universe after every step, on small universes that force re-insertion and absent targets.", "3 C03"),
  "C04": ("stateful fuzzing with sanitizing build (debug-assertion std precondition checks, journalled worker processes) + table-consistency invariant",
@@ -22,7 +22,7 @@ P = {
  "C09": ("property-based testing of iter_mut call programs (address/identity distinctness of live &mut, exhaustion, len/size_hint)",
          "Generated next/next_back/probe programs on iter_mut and (&mut q).into_iter() with all yielded references kept alive: addresses and ids pairwise distinct, exhaustion yields everything once then None forever, exact len/size_hint where ExactSizeIterator is declared; checked and release builds.", "3 C09"),
  "C10": ("fault-injection fuzzing: panics armed at generated / exhaustively swept callback indices (Ord, Hash, Eq, Clone, closures, feeding iterator) and leaked guards, in a sanitizing build with drop accounting",
-         "Generated histories in which operations run with a fuse that panics at the k-th user callback inside the operation (k scaled into the callback count measured on a clone; the thorough tier sweeps every k), iter_mut/drain guards leaked with mem::forget, then generated continuations and a deterministic battery on the survivor. Violations are concrete: an abort from std's unsafe-precondition checks / a signal in a journalled worker process, or an instrumented item/priority instance dropped twice or leaked.", "3 C10"),
+         "Generated histories in which operations run with a fuse that panics at the k-th user callback inside the operation (k scaled into the callback count measured on a clone; the thorough tier sweeps every k), iter_mut/drain guards leaked with mem::forget, then generated continuations and a deterministic battery on the survivor. Violations are concrete: an abort from std's unsafe-precondition checks / a signal in a journalled worker process (checked and release builds; the dependencies are built without their own debug assertions, as in production), an instrumented item/priority instance dropped twice or leaked, or a user callback handed a value whose instance was already dropped.", "3 C10"),
  "C11": ("model-based property testing of push_increase/push_decrease over lower/equal/higher offers",
          "Exact return value and full content/order observation after push_increase/push_decrease with offered priorities relative to the stored one (incl. equal, parent's, extremes), targeted by heap position.", "3 C11"),
  "C12": ("model-based property testing over items with a payload ignored by Eq/Hash; owned vs borrowed lookups",
@@ -37,8 +37,8 @@ P = {
          "drain with generated front/back consumption, dropped or forgotten, and clear; the queue must be empty at once and every continuation must behave as on a fresh queue (reference model started from empty).", "3 C16"),
  "C18": ("differential property testing across five BuildHasher configurations (incl. all-colliding) against a shared reference model",
          "The same generated history is executed under RandomState (new()), a fixed hasher, a keyed RandomState via with_hasher, XxHash64 and an all-colliding hasher; each execution is checked against the model and the return-value traces must agree pairwise up to the choice among equal priorities.", "3 C18"),
- "C17": ("model-based stateful property testing with capacity operations interleaved; unsatisfiable try_reserve amounts",
-         "Capacity ops are invisible to the reference model, so any influence on contents, extraction order or later results is a failure; capacity() lower bounds are asserted; unsatisfiable try_reserve must return Err without panic and leave the queue unchanged.", "3 C17"),
+ "C17": ("model-based stateful property testing with capacity operations interleaved + differential twin without them (exact trace equality); unsatisfiable try_reserve amounts",
+         "Capacity ops are invisible to the reference model, so any influence on contents, extraction order or later results is a failure; in addition every history is re-run as a twin without its capacity operations and the two return-value traces must agree item for item, also among equal priorities; capacity() lower bounds are asserted; unsatisfiable try_reserve must return Err without panic and leave the queue unchanged.", "3 C17"),
 }
 NOT_YET = {
 }
@@ -68,7 +68,7 @@ m = {
  "engines": [{"name": "pqv", "path": "/verif/harness", "serves_properties": sorted(P.keys()), "kind_free_text": "Rust harness: proptest-driven case generation, interpreter with reference model and oracles, 16 journalled worker processes driven by /verif/check (python3)"}],
  "checks": checks,
  "not_applicable": [{"property_id": k, "reason": v} for k, v in sorted(NOT_YET.items())],
- "notes": "VERIF_SEED and VERIF_TIER are honoured. Exit 0 held / 1 VIOLATION / 2 inconclusive. known_findings.jsonl lists repaired defects (status fixed) and recorded ones (status known).",
+ "notes": "VERIF_SEED and VERIF_TIER are honoured. Exit 0 held / 1 VIOLATION / 2 inconclusive. known_findings.jsonl lists the seven repaired defects (status fixed) and the recorded one (status known, F7: C08/C01/C02 print KNOWN-FINDING and exit 0). seeded/ holds 107 confirmed seeded changes with the output of the owning check, negative/ 30 behaviour-preserving changes on which every check must stay silent; tools/sandbox.sh runs checks against a patched scratch copy.",
 }
 json.dump(m, open("/verif/MANIFEST.json", "w"), indent=1)
 print("wrote MANIFEST.json with", len(checks), "checks")
